@@ -11,9 +11,9 @@ sealed, encoded, decoded and judged by an independent node.
 Call from the registered check of C07:   ext = _load_ext('c07_poollife'); ext.run_ext(ctx)
 Violations carry "part": "poollife"; a refused proposal has the signature
   {"part": "poollife", "kind": "Proposable", "ground": <which admissibility fact a block changed>}
-with one signature per ground (blocked-signer | expired | fee-per-byte | fee-per-byte-ratchet | fee-per-byte-filter | exec-fee | attribute-fee | conflict-on-chain |
-committee-changed | oracle-answered | oracle-nodes-changed | notary-nodes-changed | witness-contract | balance | on-chain |
-unexplained), the ground being derived by the driver from the scenario step after which an independent node first refused
+with one signature per ground (blocked-signer | expired | fee-per-byte | fee-per-byte-ratchet | fee-per-byte-filter | exec-fee |
+attribute-fee | conflict-on-chain | committee-changed | oracle-answered | oracle-nodes-changed | notary-nodes-changed |
+notary-deposit | witness-contract | balance | on-chain | unexplained), the ground being derived by the driver from the scenario step after which an independent node first refused
 the transaction (not from error texts).  Predicates named "i:..." are informational (drift)."""
 import json
 import os
@@ -128,11 +128,12 @@ def run_ext(ctx):
     ctx.extra["poollife_refused_by_ground"] = grounds_seen
     ctx.assumptions.append(
         "pool life: universes of 3-15 transactions (plain, cosigned, NotValidBefore, Conflicts, HighPriority by committee 1/2, oracle "
-        "responses, NotaryAssisted, contract-based witness K as cosigner / sender) over 4 poor payers; one scenario operation per foreign "
+        "responses, NotaryAssisted with a plain sender or paid from a notary deposit, contract-based witness K as cosigner / sender) over 4 "
+        "poor payers; one scenario operation per foreign "
         "block (block / unblock, fee per byte, execution fee factor (integral), attribute fees, vote -> committee change at the epoch "
         "boundary, foreign oracle response, oracle / notary node re-designation, contract storage / update / destroy, GAS drained, foreign "
-        "transaction naming a pooled one, foreign inclusion of a universe transaction); independent node = throw-away core.Blockchain on a "
-        "private layer over the replica's database (VerifyTransactions on, empty pool); notary deposits (Notary as sender) not reached")
+        "transaction naming a pooled one, notary deposit withdrawn, foreign inclusion of a universe transaction); independent node = throw-away core.Blockchain on a "
+        "private layer over the replica's database (VerifyTransactions on, empty pool)")
     # 5. binding self-test: corrupted good traces must be rejected
     if not judged_fail:
         selftest(ctx, events)
